@@ -153,6 +153,11 @@ impl Gates {
         }
         !ks.is_empty()
     }
+    /// Forget every parked waker (breaks the task -> gate -> waker -> task cycle at teardown).
+    pub fn clear_wakers(&self) {
+        let ws: Vec<Waker> = self.st.borrow_mut().iter_mut().filter_map(|g| g.waker.take()).collect();
+        drop(ws);
+    }
     pub fn wait(self: &Rc<Self>, k: usize) -> GateFut {
         GateFut { gates: self.clone(), k }
     }
@@ -368,7 +373,28 @@ impl EpCfg {
         }
     }
 
+    /// Configuration object for this endpoint. ntex keeps per-configuration-id caches in thread-locals
+    /// (service config mapping, io buffer cache), so one object per distinct configuration is created
+    /// per worker thread and reused by later executions instead of leaking a new id every time.
     pub fn shared_cfg(&self) -> SharedCfg {
+        thread_local! {
+            static CFGS: RefCell<std::collections::HashMap<String, SharedCfg>> = RefCell::new(std::collections::HashMap::new());
+        }
+        let key = format!(
+            "{:?}|{}|{}|{}|{}|{}|{}|{}|{}|{}|{:?}|{:?}|{:?}|{:?}|{}",
+            self.ver, self.max_qos, self.max_size, self.max_receive, self.max_receive_size, self.max_topic_alias, self.max_send,
+            self.min_chunk_size, self.max_payload_buffer_size, self.connect_timeout, self.handle_qos_after_disconnect,
+            self.write_buf, self.frame_read_rate, self.disconnect_timeout, self.tag
+        );
+        if let Some(c) = CFGS.with(|m| m.borrow().get(&key).cloned()) {
+            return c;
+        }
+        let c = self.build_shared_cfg();
+        CFGS.with(|m| m.borrow_mut().insert(key, c.clone()));
+        c
+    }
+
+    fn build_shared_cfg(&self) -> SharedCfg {
         let mut m = MqttServiceConfig::new()
             .set_max_qos(Self::qos(self.max_qos))
             .set_max_size(self.max_size)
@@ -456,6 +482,14 @@ pub struct Conn {
     /// bytes the harness wrote to the endpoint
     pub sent: Vec<u8>,
     pub auto_pump: bool,
+}
+
+impl Drop for Conn {
+    fn drop(&mut self) {
+        self.gates.clear_wakers();
+        self.pgates.clear_wakers();
+        self.hgates.clear_wakers();
+    }
 }
 
 pub const BIG: usize = 1 << 30;
